@@ -213,6 +213,28 @@ def generate(rng, opts):
     # Initial modules are inserted by ops too, so that shrinking can remove them.
     for top in TOPS:
         ops.append({"op": "set", "api": "set_member", "form": "name", "on": [], "value": {"new": "module", "name": top}})
+    if rng.random() < 0.03 and not opts.get("no_moves"):
+        # planted motif (random histories reach it about once in six million runs): a detached stubs module is put in
+        # the place of another stubs module whose subtree holds the module that used to be its parent
+        swarm["stub_modules"] = True
+        swarm["motif"] = "stale-parent-into-stub-merge"
+        top1, top2 = rng.sample(TOPS, 2)
+        nm = rng.choice(NAMES)
+        api_set = rng.choice(["set_member", "set_member", "setitem"])
+        motif = [
+            {"op": "set", "api": "set_member", "form": "name", "on": [top1], "value": {"new": "module", "name": nm, "pyi": True, "filled": True}},
+            {"op": "set", "api": "set_member", "form": "name", "on": [top2], "value": {"new": "module", "name": nm, "pyi": rng.random() < 0.8, "filled": True}},
+            # (a member of another kind on each side, met by the merge after the old parent has been moved)
+            {"op": "set", "api": "set_member", "form": "name", "on": [top1, nm, "b"], "value": {"new": "function", "name": "a"}},
+            {"op": "del", "api": rng.choice(["del_member", "delitem"]), "form": "name", "path": [top1]},
+            {"op": "set", "api": api_set, "form": rng.choice(KEY_FORMS), "on": [top2, nm, "b"], "value": {"detached": 0}},
+            {"op": "set", "api": "set_member", "form": "name", "on": [top2, nm, "b"], "value": {"new": "module", "name": "a"}},
+            {"op": "del", "api": rng.choice(["del_member", "delitem"]), "form": rng.choice(KEY_FORMS), "path": [top2, nm, "b", top1, nm]},
+            {"op": "set", "api": "set_member", "form": rng.choice(KEY_FORMS), "on": [top2], "value": {"detached": 0}},
+        ]
+        for op in motif:
+            ops.append(op)
+            ex.step(op, None)
     kinds = [k for k, w in swarm["w"].items() for _ in range(w)] + (["transfer"] * 2 if swarm["two_collections"] else [])
     for _ in range(swarm["n_ops"]):
         k = rng.choice(kinds)
